@@ -19,23 +19,45 @@ SLOT = {"distance": "sight_height", "angular": "angular", "velocity": "velocity"
         "pressure": "pressure", "weight": "weight", "energy": "energy"}
 
 
-def pass_to_library(m, dim, q):
-    """use q as an argument of a real API call of its dimension"""
+_PARAMS = {}
+
+
+def library_params(m):
+    """dimension -> [(parameter name, call)]: EVERY float-or-quantity parameter of the public API (the parameter table of
+    Prefs.tla, obtained from TLC, bound by c07.param_builders), except the few whose call is a whole trajectory computation
+    with the quantity as range; plus calls with clamping / limiting keywords"""
+    if _PARAMS:
+        return _PARAMS
+    from pbv.props import c07
+    cfg, defs = core.consts(dict(MaxOps=1, Candidates=c07.CAND))
+    gen = core.run_tlc("Gen_Prefs", cfg + "SPECIFICATION GenSpec\nINVARIANT Emit\n", defs=defs, workers=1, tags=["PARAMS"],
+                       simulate="num=1", depth=2, seed=1)
+    builders = c07.param_builders(m)
     U = m.Unit
-    if dim == "distance":
-        m.Weapon(sight_height=q)
-    elif dim == "angular":
-        m.Shot(weapon=m.Weapon(), ammo=m.Ammo(m.DragModel(0.3, m.TableG7), U.FPS(2500)), look_angle=q)
-    elif dim == "velocity":
-        m.Wind(velocity=q, direction_from=U.Degree(90))
-    elif dim == "temperature":
-        m.Atmo(U.Foot(0), U.InHg(29.92), q, 0.0)
-    elif dim == "pressure":
-        m.Atmo(U.Foot(0), q, U.Celsius(15), 0.0)
-    elif dim == "weight":
-        m.DragModel(0.3, m.TableG7, q, U.Inch(0.308), U.Inch(1.2))
-    else:
+    heavy = ("Calculator.", "HitResult.danger_space.at_range", "set_global_max_calc_step_size")
+    for pname, slot, _zero in gen.out("PARAMS")[0]:
+        if pname.startswith(heavy):
+            continue
+        _PARAMS.setdefault(c07.DIM_OF_SLOT[slot], []).append((pname, builders[pname]))
+    # keywords that limit / clamp what the caller passes: the caller's object must come out as it went in
+    _PARAMS["distance"].append(("Wind.until_distance(max_distance_feet below it)",
+                                lambda q: m.Wind(U.FPS(5), U.Degree(90), q, max_distance_feet=max(0.0, (q >> U.Foot) * 0.5))))
+    _PARAMS["distance"].append(("Wind.until_distance(max_distance_feet above it)",
+                                lambda q: m.Wind(U.FPS(5), U.Degree(90), q, max_distance_feet=abs(q >> U.Foot) * 2.0 + 1.0)))
+    for d_ in ("energy",):
+        _PARAMS.setdefault(d_, [])
+    return _PARAMS
+
+
+def pass_to_library(m, dim, q, salt=0):
+    """use q as an argument of a real API call of its dimension (rotating through all of them)"""
+    calls = library_params(m).get(dim) or []
+    if not calls:
         getattr(m.PreferredUnits, SLOT[dim])(q)
+        return "PreferredUnits." + SLOT[dim]
+    name, fn = calls[salt % len(calls)]
+    fn(q)
+    return name
 
 
 def design(chk, maxops):
@@ -210,13 +232,18 @@ def replay(chk, behs, equal_mags, rng):
                     if o[0] != "ok":
                         chk.violation("C13.ShowRaised", k, {**det, "exc": o[1]})
             elif a == "Pass":
-                o = impl.outcome(pass_to_library, m, dimof[qn], obj)
+                o = impl.outcome(pass_to_library, m, dimof[qn], obj, bi + step)
+                chk.stratum("pass_rotates_over_all_parameters")
                 if o[0] != "ok":
                     # the value may be physically inadmissible for that call (0 K, zero pressure): raising is the library's
-                    # right; what C13 demands - the magnitude is untouched - is checked below.  Align the display unit with the
-                    # spec (the call may have raised before or after re-displaying the argument) so that the history continues.
+                    # right; what C13 demands - the magnitude is untouched - is checked below.
                     chk.stratum("library_call_raised")
-                    obj._defined_units = real[e["disp"][qn]]
+                # which unit the argument is displayed in afterwards is the call's business (the spec's "preferred unit" is what
+                # most parameters do; some leave it alone, a raising call may stop half way) - as long as it is a unit of the
+                # quantity's own dimension.  Align it with the spec so that the history continues.
+                if obj.units.name not in dims[dimof[qn]]:
+                    chk.violation("C13.DisplayUnitOutsideDimension", k, {**det, "call": o[1] if o[0] == "ok" else "raised", "got": str(obj.units)})
+                obj._defined_units = real[e["disp"][qn]]
             # ---- after every operation: magnitudes untouched, display units as the spec says
             for name, ob in q.items():
                 if ob.raw_value != raw0[name] or type(ob.raw_value) is not type(raw0[name]):
@@ -241,7 +268,7 @@ def run(chk: core.Check, replay_path=None, **_):
         replay(chk, behs, ma2 == 5, rng)
         chk.sample({"behaviour": behs[0]})
     core.reset_world()
-    chk.require_strata(["neighbouring_magnitudes", "op_Convert", "op_Shl", "op_UnitCall", "op_GetIn", "op_Cmp", "op_Hash", "op_Show", "op_Pass",
+    chk.require_strata(["pass_rotates_over_all_parameters", "neighbouring_magnitudes", "op_Convert", "op_Shl", "op_UnitCall", "op_GetIn", "op_Cmp", "op_Hash", "op_Show", "op_Pass",
                         "foreign_read", "foreign_redisplay", "hash_equal_pair"])
     chk.exhaustive = False
     chk.rule.append("design: Quantity.tla exhaustively to depth 3/4 (equal and different magnitudes); spec->code: TLC-simulated "
